@@ -15,7 +15,7 @@ CLAIMS = {
               'cannot raise, every return is a {result,error} record, error is None or str() of a canonical singleton, '
               'error set => result None, result never an error object; closed 9-entry code table (enumerated by abstractly running from_message on an arbitrary argument), who-may-construct XLError; '
               'every reachable loop matches a termination idiom with the interval facts it needs (monotone counters, iterator drains, a stack of open iterators). Not decided: cost of finite '
-              'big-integer work and polynomial backtracking of constant regexes; a regex assembled at run time receives no input-sized number of unbounded quantifiers. str() of an error object cannot raise (a __str__ of the error class returns text for every way the object can be built).',
+              'big-integer work and polynomial backtracking of constant regexes; a regex assembled at run time receives no input-sized number of unbounded quantifiers. str() of an error object cannot raise (a __str__ of the error class returns text for every way the object can be built). No lock that its holder cannot take a second time is held while listeners or custom functions run (a callback evaluating on the same parser would wait for ever).',
               'path enumeration + catch-all/handler discipline + literal-table agreement + loop-variant idioms with guard-derived interval facts',
               'DESIGN.md 5 C01'),
     'C02': _c('Whole-package effect analysis from parse(): no write to module/class/instance state during evaluation (allow-list: '
